@@ -27,6 +27,20 @@ ASSUMPTIONS = [
     "the full 2^32 product is not enumerated in pure Python; unary operators are exhaustive",
 ]
 
+TECHNIQUE = ("boundary-lattice and seeded-random enumeration of operand pairs vs. Python integer model "
+             "(values API + Session.evaluate); exhaustive unary operators; Hypothesis FOR-loop programs")
+KILLS = [
+    "numbers.Integer.iadd: carry from low to high byte dropped => for.sequence, for.overflow-missing, for.spurious-error",
+    "numbers.Integer.imod: sign taken from the divisor => binop.MOD.api/eval/float, identity, mod-sign",
+    "values.not_: -x instead of ~x => unary.NOT, unary.NOT.lit",
+    "numbers.Integer.from_int: lower bound -0x7fff (rejects -32768) => binop.*.api (spurious Overflow)",
+    "numbers.Integer.iadd: revert 51068ba5 (negative overflow undetected) => for.sequence, for.overflow-missing",
+    "values.xor_: computed as OR => binop.XOR.api/eval/float",
+    "seeded/C02 (idiv_int negates after storing: -32768\\1 raises Overflow) => binop.\\.api",
+    "seeded/C02b (imod sign correction applied to zero remainders) => binop.MOD.api, identity",
+    "survives (equivalent): idiv_int sign test `divisor > 0` instead of `>= 0` - the divisor is never 0 there",
+]
+
 BINOPS = ['\\', 'MOD', 'AND', 'OR', 'XOR', 'EQV', 'IMP']
 
 
